@@ -159,6 +159,9 @@ pub fn run_workload(sub: u64, acc: &mut Acc, ctx: &Ctx, _thorough: bool) {
     w.corpus.materialise(&root);
     let cwd = ctx.scratch.path().to_path_buf();
     let mut args: Vec<String> = ["--no-config", "--color=never", "-j1", "--sort=path", w.mmap].iter().map(|s| s.to_string()).collect();
+    // flags that cancel each other leave nothing behind: binary detection is as if none was given
+    const NOOPS: [&[&str]; 8] = [&[], &[], &[], &["--text", "--no-text"], &["--binary", "--no-binary"], &["--null-data", "--crlf", "--no-crlf"], &["-a", "--binary", "--no-binary", "--no-text"], &["--null-data", "--crlf", "--null-data", "--crlf", "--no-crlf"]];
+    args.extend(NOOPS[Rng::new(sub ^ 0x0FF).below(NOOPS.len())].iter().map(|s| s.to_string()));
     if !w.binary_flag.is_empty() {
         args.push(w.binary_flag.into());
     }
